@@ -184,3 +184,45 @@ def main_shunt_dc():
 
 if __name__ == "__main__":
     main()
+
+
+def main_reference_buses_only():
+    """enforce_q_lims in networks without any PQ / PV bus (every bus carries an ext_grid): gens at these buses stay inside their limits"""
+    fails = []
+
+    def one_bus():
+        net = pp.create_empty_network()
+        b0 = pp.create_bus(net, 110.)
+        pp.create_ext_grid(net, b0, vm_pu=1.0)
+        pp.create_gen(net, b0, p_mw=10., vm_pu=1.0, min_q_mvar=-1., max_q_mvar=1.)
+        pp.create_load(net, b0, 60., 30.)
+        return net
+
+    def two_buses():
+        net = one_bus()
+        b1 = pp.create_bus(net, 110.)
+        pp.create_ext_grid(net, b1, vm_pu=1.01)
+        pp.create_line_from_parameters(net, 0, b1, 10., 0.06, 0.3, 10., 1.)
+        pp.create_gen(net, b1, p_mw=5., vm_pu=1.01, min_q_mvar=-2., max_q_mvar=3.)
+        pp.create_load(net, b1, 20., -25.)
+        return net
+    for name, build in (("one bus with ext_grid, gen and load", one_bus), ("two buses, an ext_grid and a gen at each", two_buses)):
+        for algorithm in ("nr", "iwamoto_nr"):
+            net = build()
+            pp.runpp(net, enforce_q_lims=True, algorithm=algorithm)
+            for g in net.gen.index:
+                q, lo, hi = net.res_gen.q_mvar.at[g], net.gen.min_q_mvar.at[g], net.gen.max_q_mvar.at[g]
+                if q < lo - 1e-6 or q > hi + 1e-6:
+                    fails.append(f"{name}, algorithm={algorithm}: gen {g} q = {q:.4f} Mvar outside [{lo}, {hi}] with enforce_q_lims")
+            for b in net.bus.index:
+                # nodal balance of the reported reactive powers
+                qb = net.res_gen.q_mvar[net.gen.bus == b].sum() + net.res_ext_grid.q_mvar[net.ext_grid.bus == b].sum() - \
+                    net.res_load.q_mvar[net.load.bus == b].sum() - net.res_line.q_from_mvar[net.line.from_bus == b].sum() - \
+                    net.res_line.q_to_mvar[net.line.to_bus == b].sum()
+                if abs(qb) > 1e-5:
+                    fails.append(f"{name}, algorithm={algorithm}: reactive power balance at bus {b} is off by {qb:.5f} Mvar")
+    for f in fails:
+        print("REPRODUCED:", f)
+    if not fails:
+        print("not reproduced: gens at reference buses respect their reactive limits")
+    sys.exit(1 if fails else 0)
